@@ -87,6 +87,7 @@ type Result struct {
 	Fired      map[string]int   `json:"fired,omitempty"`
 	Probes     map[string]int   `json:"probes,omitempty"`
 	States     []uint64         `json:"states,omitempty"`
+	Grid       []uint64         `json:"grid,omitempty"`
 	Log        []string         `json:"-"`
 	Nontrivial bool             `json:"nontrivial"`
 	Trace      []int            `json:"trace,omitempty"`
@@ -102,6 +103,9 @@ type Meta struct {
 	Simulated   []string `json:"simulated"`
 	Assumptions []string `json:"assumptions"`
 	Technique   string   `json:"technique"`
+	// GridTotals: size of each sub-grid (class -> number of cells) and what a cell is
+	GridTotals map[string]int `json:"grid_totals,omitempty"`
+	GridRule   string         `json:"grid_rule,omitempty"`
 }
 
 // Engine is a per-property simulation engine.
@@ -226,6 +230,10 @@ func Execute(t *testing.T, p *Plan, keepTrace bool) (res *Result) {
 				keys = keys[:256]
 			}
 			res.States = keys
+			for k := range w.Grid {
+				res.Grid = append(res.Grid, k)
+			}
+			sort.Slice(res.Grid, func(i, j int) bool { return res.Grid[i] < res.Grid[j] })
 			if keepTrace || len(res.Violations) > 0 {
 				res.Trace = w.Ch.Trace
 				res.Tail = w.Log.Tail(120)
